@@ -19,11 +19,6 @@ variable {F : Type} [Field F] [DecidableEq F]
 
 /-! ### power lists -/
 
-theorem fpow_add (x : F) (a b : Nat) : fpow x (a + b) = fpow x a * fpow x b := by
-  induction a with
-  | zero => simp [fpow]
-  | succ a ih => rw [Nat.succ_add]; simp only [fpow, ih]; ring
-
 /-- the pairing partner cancels the shift: `β^k · β^{-k} = 1` -/
 theorem fpow_mul_inv (β bi : F) (hb : β * bi = 1) (k : Nat) : fpow β k * fpow bi k = 1 := by
   induction k with
